@@ -157,6 +157,15 @@ func (m *MonAgreement) AfterStep(nw *Network) {
 			continue
 		}
 		app := n.App
+		if n.ResetEpochs > 0 && n.InsertFailedStep >= 0 {
+			// "for as long as it can insert the events it receives": a reset node
+			// that had to refuse events is no longer judged
+			if m.processed[app] < len(app.Delivered) {
+				nw.Res.count("reset_node_deliveries_not_judged_after_failed_insert", int64(len(app.Delivered)-m.processed[app]))
+				m.processed[app] = len(app.Delivered)
+			}
+			continue
+		}
 		for i := m.processed[app]; i < len(app.Delivered); i++ {
 			d := app.Delivered[i]
 			dg := blockDigest(d)
@@ -166,7 +175,8 @@ func (m *MonAgreement) AfterStep(nw *Network) {
 				if c.digest != dg {
 					nw.violate(m.Prop, m.Prop+":block-disagreement",
 						fmt.Sprintf("node %d delivered block %d differing from what node %d delivered for the same index", n.Idx, d.Index, c.from),
-						map[string]interface{}{"node_a": c.from, "block_a": describeDelivered(c.d), "node_b": n.Idx, "block_b": describeDelivered(d), "node_b_resets": n.ResetEpochs})
+						map[string]interface{}{"node_a": c.from, "block_a": describeDelivered(c.d), "node_b": n.Idx, "block_b": describeDelivered(d), "node_b_resets": n.ResetEpochs,
+							"node_b_insert_failed_step": n.InsertFailedStep, "node_b_joined_step": n.JoinedAtStep, "trace_first_difference": traceDiff(nw, n, c.d, d)})
 					return
 				}
 			} else {
@@ -383,3 +393,25 @@ func (m *MonFinality) AfterStep(nw *Network) {
 	}
 }
 func (m *MonFinality) Finish(nw *Network) {}
+
+func traceDiff(nw *Network, n *SimNode, a, b *Delivered) interface{} {
+	in := map[string]bool{}
+	for _, tx := range b.Body.Transactions {
+		in[string(tx)] = true
+	}
+	for _, tx := range a.Body.Transactions {
+		if !in[string(tx)] {
+			return traceTx(nw, n, tx)
+		}
+	}
+	in = map[string]bool{}
+	for _, tx := range a.Body.Transactions {
+		in[string(tx)] = true
+	}
+	for _, tx := range b.Body.Transactions {
+		if !in[string(tx)] {
+			return traceTx(nw, nw.Nodes[0], tx)
+		}
+	}
+	return nil
+}
